@@ -220,8 +220,12 @@ def run(ctx):
         msg = matches(o.value, expected(arg.entries, keys), inputs)
         rep.check('R8.4', label, msg is None,
                   '%s: %s' % (label, msg or 'value table holds'), case=label)
-        muts = [e for e in o.effects if e[0] in ('mutate', 'write',
-                                                 'delattr')]
+        # writes to the argument or to something reachable from it (an
+        # attribute store on a helper object the code made for itself is
+        # its own business)
+        in_labels = set(i.label for i in inputs if isinstance(i, Obj))
+        muts = [e for e in o.effects if e[0] == 'mutate' or (
+            e[0] in ('write', 'delattr') and e[1] in in_labels)]
         in_refs = set()
         for i in inputs:
             if isinstance(i, (ListV, DictV)):
